@@ -57,18 +57,21 @@ Fixpoint first_free (fuel : nat) (vs : list var) (suggested : string) (n : nat) 
   | S f => if has_var vs (suggested ++ itoa n) then first_free f vs suggested (S n) else Some n
   end.
 
-(* resolveVarNameConflict *)
+(* resolveVarNameConflict.  The first time a stem conflicts, the variable holding the bare
+   stem (if it still exists: an import may have renamed it away) becomes <stem>1, the stem is
+   remembered as conflicted, and the search goes on from 2. *)
 Definition resolve_var_name_conflict (sc : scope) (suggested : string)
   : outcome (string * scope) :=
-  match first_free (S (S (List.length (sc_vars sc)))) (sc_vars sc) suggested 1 with
+  let fuel := S (S (List.length (sc_vars sc))) in
+  match first_free fuel (sc_vars sc) suggested 1 with
   | None => OutOfFuel "resolveVarNameConflict"
   | Some 1 =>
-    match search_var (sc_vars sc) suggested with
-    | None => Crash "method_scope.go: conflict.Name on nil *Var"
-    | Some _ =>
-      Ok (suggested ++ "2",
-          mkScope (rename_first (sc_vars sc) suggested (suggested ++ "1"))
-                  (suggested :: sc_conflicted sc))
+    let vs1 := if has_var (sc_vars sc) suggested
+               then rename_first (sc_vars sc) suggested (suggested ++ "1")
+               else sc_vars sc in
+    match first_free fuel vs1 suggested 2 with
+    | None => OutOfFuel "resolveVarNameConflict"
+    | Some n => Ok (suggested ++ itoa n, mkScope vs1 (suggested :: sc_conflicted sc))
     end
   | Some n => Ok (suggested ++ itoa n, sc)
   end.
